@@ -14,7 +14,8 @@ from ..values import (ALL_KINDS, Frag, SBool, SDict, SList, SNew, SObj, SOpaque,
 
 CORE = "htmltools._core"
 CSS = "htmltools._util:css"
-CSS_PROBES = ["font_size", "backgroundColor", "fontSize", "color", "a_b_c", "WebkitTransition", "borderTopLeftRadius", "x", "margin_top", "zIndex"]
+CSS_PROBES = ["font_size", "backgroundColor", "fontSize", "color", "a_b_c", "WebkitTransition", "borderTopLeftRadius", "x", "margin_top", "zIndex",
+              "border_topWidth", "MozBox_sizing"]
 
 
 def spec_css_key(k: str) -> str:
@@ -316,6 +317,7 @@ def css_obligations(ctx: Ctx) -> None:
                 key = rec0.__dict__.get("loop_key")
     cfg.stop_at_loop = key or ("css", 0)
     n = 0
+    probes_covered: set = set()
     for l in I.run_function("htmltools._util", "css", mk, cfg):
         rec = getattr(l.run, "stop_loop_record", None)
         if rec is None:
@@ -362,12 +364,23 @@ def css_obligations(ctx: Ctx) -> None:
             continue
         # key pipeline on sample names
         keyf = SStr([fr[0]])
+        preds = [(a_, v_, l.run.atom_info[a_]["recv"]) for a_, v_ in l.atoms
+                 if isinstance(a_, tuple) and a_ and a_[0] in ("islower", "isupper", "isalpha", "isalnum", "isascii", "isidentifier", "istitle", "isdigit", "isspace")
+                 and isinstance(l.run.atom_info.get(a_), dict) and l.run.atom_info[a_].get("recv") is not None]
         for w in CSS_PROBES:
+            # a path taken only by names with a certain character make-up (a fast path) is tried on the samples that take it
+            try:
+                if any(getattr(eval_sstr(r_, {k.uid: w, "__interp__": I}), a_[0])() is not v_ for a_, v_, r_ in preds):
+                    continue
+            except Exception:
+                pass
+            probes_covered.add(w)
             got = eval_sstr(keyf, {k.uid: w, "__interp__": I})
             ctx.check(got == spec_css_key(w), "C16.csskey", f"css name {w!r} -> {spec_css_key(w)!r}", CSS, f"{w!r} -> {got!r}",
                       f"the property name {w!r} is written as {got!r}; camelCase/underscore normalisation gives {spec_css_key(w)!r}",
                       witness=f"css({w}='v')")
     ctx.min_count("css body paths with a value", n, 2)
+    ctx.require(probes_covered >= set(CSS_PROBES), f"css: no path of the loop body covers the sample names {sorted(set(CSS_PROBES) - probes_covered)}")
     # summary: None iff nothing appended
     cfg2 = Config()
     cfg2.loop_effects = False
